@@ -18,6 +18,36 @@ from pykdebugparser.os_log_event import OsLogEvent
 
 MODP = (1 << 61) - 1
 
+import dataclasses
+import enum
+from datetime import datetime, timezone, timedelta
+from pykdebugparser.os_log_event import TraceIdentifier
+EPOCH = datetime(1970, 1, 1, tzinfo=timezone.utc)
+
+
+def tagv(v):
+    if v is None:
+        return None
+    if isinstance(v, bool):
+        return {'B': v}
+    if isinstance(v, enum.Enum):
+        return {'i': int(v.value)}
+    if isinstance(v, int):
+        return {'i': int(v)}
+    if isinstance(v, str):
+        return {'s': v}
+    if isinstance(v, bytes):
+        return {'b': v.hex()}
+    if isinstance(v, datetime):
+        return {'i': (v - EPOCH) // timedelta(microseconds=1)}
+    if isinstance(v, TraceIdentifier):
+        return {'d': [[f.name, tagv(getattr(v, f.name))] for f in dataclasses.fields(v)]}
+    if isinstance(v, (list, tuple)):
+        return {'l': [tagv(x) for x in v]}
+    if isinstance(v, dict):
+        return {'d': [[k, tagv(x)] for k, x in v.items()]}
+    return {'s': 'UNSUPPORTED:' + type(v).__name__}
+
 
 def mix(acc, x):
     return (acc * 1000003 + x + 1) % MODP
@@ -95,6 +125,7 @@ def run_one(data, tables0=None):
         parser = KdBufParser(tp, pn)
         reader = CountingReader(data, 8 * len(data) + 4096)
         events, logs = [], []
+        order_violation = []
         err = None
         phase_b = False
         try:
@@ -102,6 +133,8 @@ def run_one(data, tables0=None):
                 if isinstance(item, OsLogEvent):
                     logs.append(item)
                 else:
+                    if logs:
+                        order_violation.append(len(events))
                     events.append(item)
         except Exception as ex:
             err = ex
@@ -135,12 +168,19 @@ def run_one(data, tables0=None):
         'n_logs': len(logs),
         'err': None if err is None else type(err).__name__,
         'err_phase_b': phase_b,
-        'threads_pids': sorted([k, v] for k, v in parser.threads_pids.items()),
-        'pids_names': sorted([k, v] for k, v in parser.pids_names.items()),
+        'threads_pids': sorted(([k, v] for k, v in parser.threads_pids.items()), key=lambda kv: (type(kv[0]).__name__, kv[0])),
+        'pids_names': sorted(([k, v] for k, v in parser.pids_names.items()), key=lambda kv: (type(kv[0]).__name__, kv[0])),
         'reads': [reader.calls, reader.requested],
         'blocks': [[t.hex(), p.hex()] for t, p in blocks_seen[0]] if blocks_seen else None,
         'trace_codes': parser.trace_codes,
         'n_tm_calls': len(tm_seen),
+        'event_after_log': bool(order_violation),
+        'tm': tm_seen[0] if tm_seen else None,
+        'meta': {'processes': tagv(parser.processes), 'images': tagv(parser.images), 'dyld': tagv(parser.dyld_modules),
+                 'kexts': tagv(parser.kernel_extensions.get('Binaries'))},
+        'logs': [[[f.name, tagv(getattr(o, f.name))] for f in dataclasses.fields(o)] for o in logs],
+        'err_b_code': (1 if isinstance(err, KeyError) else 2 if isinstance(err, ValueError) else 3 if isinstance(err, TypeError)
+                       else 99) if (err is not None and phase_b) else 0,
     }
 
 
